@@ -20,7 +20,20 @@ package main
 //     as a dyadic rational) compared with a constant or converted back to an unsigned type.  Such a value
 //     is an exact rational num/den (den a power of two, num < 2^53, so float64 arithmetic is exact);
 //     comparison is cross-multiplication; uintN(f) is num/den (truncation) guarded by num/den < 2^N
-//     because Go leaves the out-of-range conversion implementation-defined.
+//     because Go leaves the out-of-range conversion implementation-defined;
+//   - uintN(math.Ceil(float64(u) / c))  with u an unsigned integer expression below 2^32 and c an integer
+//     constant, 0 < c <= 2^20: emitted as the ceiling division (u + (c - 1)) / c.  This is exact although
+//     float64(u)/c is ROUNDED: if c divides u the quotient is an integer below 2^53 and exact; otherwise
+//     u/c lies at least 1/c >= 2^-20 away from the integers q < u/c < q+1, the rounding error of a
+//     correctly rounded float64 below 2^32 is at most 2^-22, so q < fl(u/c) < q+1 and Ceil gives q+1.
+//     (GoFuncs_proofs.v: gen_ceil_div_is_ceiling, gen_ceil_div_gap prove the integer side of this argument;
+//     the translator also evaluates both sides on some 70000 arguments per divisor on every run.)
+//   - r.f.g and len(r.f) where r is the STRUCT receiver of the method being translated (pointer or value
+//     receiver), every selection is a direct (not promoted) field selection through struct-typed (not
+//     pointer-typed) fields, and the selected field is a sized integer / bool (for len: a slice, map or
+//     string): the method gets one parameter per path read (r_f_g, len_r_f), see gengo_stmt.go.
+//     Assigning to a field, using the receiver or a struct-typed field as a value, calling a method on it
+//     are outside the subset.
 
 import (
 	"fmt"
@@ -28,7 +41,9 @@ import (
 	"go/constant"
 	"go/token"
 	"go/types"
+	"math"
 	"math/big"
+	"sort"
 	"strings"
 )
 
@@ -189,8 +204,19 @@ func (f *ggFn) constVal(e ast.Expr, tv types.TypeAndValue) ggVal {
 		g.fail(e.Pos(), "negative constant in unsigned context")
 	}
 	out := ggVal{rep: rep, cst: v, ub: v}
-	// a bare (parenthesised) reference to a named constant keeps the name
-	// (also through value-preserving conversions such as uint32(digestSize): the value is re-checked below)
+	if name, ok := f.constRef(e, v, rep.k); ok {
+		out.s = name
+		return out
+	}
+	out.s = ggLit(rep, v)
+	return out
+}
+
+// constRef: e is a bare (parenthesised) reference to a named constant, possibly under value-preserving
+// conversions such as uint32(digestSize): the constant keeps its name (its value is re-checked against v,
+// the value go/types computed for e).  want = representation (ggN / ggZ) the context needs.
+func (f *ggFn) constRef(e ast.Expr, v *big.Int, want ggRepKind) (string, bool) {
+	g := f.g
 	x := e
 	for {
 		if p, ok := x.(*ast.ParenExpr); ok {
@@ -216,31 +242,31 @@ func (f *ggFn) constVal(e ast.Expr, tv types.TypeAndValue) ggVal {
 			}
 		}
 	}
-	if id != nil {
-		if c, ok := g.info.Uses[id].(*types.Const); ok && c.Pkg() != nil {
-			crep, cv := g.constRep(c, e.Pos())
-			if cv.Cmp(v) != 0 {
-				g.fail(e.Pos(), "internal: constant %s evaluates to %s here but %s at its declaration", c.Name(), v, cv)
-			}
-			name := g.constName(c)
-			if c.Pkg() == g.pkg {
-				g.usedConsts[c] = true
-			} else {
-				g.extConsts[name] = c
-			}
-			switch {
-			case crep.k == rep.k:
-				out.s = name
-			case crep.k == ggN && rep.k == ggZ:
-				out.s = "(Z.of_N " + name + ")"
-			default: // Z constant (>= 0 here) in unsigned context
-				out.s = "(Z.to_N " + name + ")"
-			}
-			return out
-		}
+	if id == nil {
+		return "", false
 	}
-	out.s = ggLit(rep, v)
-	return out
+	c, ok := g.info.Uses[id].(*types.Const)
+	if !ok || c.Pkg() == nil {
+		return "", false
+	}
+	crep, cv := g.constRep(c, e.Pos())
+	if cv.Cmp(v) != 0 {
+		g.fail(e.Pos(), "internal: constant %s evaluates to %s here but %s at its declaration", c.Name(), v, cv)
+	}
+	name := g.constName(c)
+	if c.Pkg() == g.pkg {
+		g.usedConsts[c] = true
+	} else {
+		g.extConsts[name] = c
+	}
+	switch {
+	case crep.k == want:
+		return name, true
+	case crep.k == ggN && want == ggZ:
+		return "(Z.of_N " + name + ")", true
+	default: // Z constant (>= 0 here) in unsigned context
+		return "(Z.to_N " + name + ")", true
+	}
 }
 
 func (f *ggFn) expr(e ast.Expr, env *ggEnv) ggVal {
@@ -260,6 +286,8 @@ func (f *ggFn) expr(e ast.Expr, env *ggEnv) ggVal {
 		return f.expr(x.X, env)
 	case *ast.Ident:
 		return f.variable(x, env, false)
+	case *ast.SelectorExpr:
+		return f.recvField(x, false)
 	case *ast.BinaryExpr:
 		return f.binary(x, env)
 	case *ast.UnaryExpr:
@@ -671,6 +699,9 @@ func (f *ggFn) call(x *ast.CallExpr, env *ggEnv) ggVal {
 			if to.k != ggN || to.w == 0 {
 				g.fail(x.Pos(), "conversion of a floating-point value to %s (only sized unsigned types)", ftv.Type)
 			}
+			if v, ok := f.ceilDiv(x.Args[0], env, to, x.Pos()); ok {
+				return v
+			}
 			r := f.floatExpr(x.Args[0], env)
 			q := "(" + r.num + " / " + r.den.String() + ")"
 			if r.den.Cmp(big.NewInt(1)) == 0 {
@@ -706,6 +737,11 @@ func (f *ggFn) call(x *ast.CallExpr, env *ggEnv) ggVal {
 			return a
 		}
 		g.fail(x.Pos(), "conversion %s (signed/unsigned or narrowing signed conversions are outside the subset)", g.text(x.Pos(), x.End()))
+	}
+	if id, ok := ggUnparen(x.Fun).(*ast.Ident); ok && len(x.Args) == 1 {
+		if b, ok := g.info.Uses[id].(*types.Builtin); ok && b.Name() == "len" {
+			return f.recvField(x.Args[0], true)
+		}
 	}
 	callee, recv := f.callee(x)
 	out := g.translate(callee, x.Pos())
@@ -764,6 +800,13 @@ func (f *ggFn) callee(x *ast.CallExpr) (*types.Func, ast.Expr) {
 
 // callText: "(name g_implicit... recv args...)".
 func (f *ggFn) callText(out *ggFnOut, recv ast.Expr, args []ast.Expr, env *ggEnv) (string, []string) {
+	if out.recvStruct {
+		pos := token.NoPos
+		if recv != nil {
+			pos = recv.Pos()
+		}
+		f.g.fail(pos, "call of %s, a method on a struct receiver, from translated code (only top-level translation of such methods is in the subset)", out.name)
+	}
 	parts := []string{out.name}
 	var guards []string
 	for _, gv := range out.implicit {
@@ -787,6 +830,237 @@ func (f *ggFn) callText(out *ggFnOut, recv ast.Expr, args []ast.Expr, env *ggEnv
 		guards = append(guards, v.guards...)
 	}
 	return "(" + strings.Join(parts, " ") + ")", guards
+}
+
+func ggUnparen(e ast.Expr) ast.Expr {
+	for {
+		p, ok := e.(*ast.ParenExpr)
+		if !ok {
+			return e
+		}
+		e = p.X
+	}
+}
+
+// ---------------------------------------------------------------------------------------------
+// uintN(math.Ceil(float64(u) / c))
+
+var ggTwo20 = ggPow2(20)
+
+// ceilDiv: ok = false when e is not a call of math.Ceil (the caller goes on with the float64(u)*c
+// pattern); a call of math.Ceil that does not fit the pattern exactly is a fatal error.
+func (f *ggFn) ceilDiv(e ast.Expr, env *ggEnv, to ggRep, pos token.Pos) (ggVal, bool) {
+	g := f.g
+	c, ok := ggUnparen(e).(*ast.CallExpr)
+	if !ok || len(c.Args) != 1 {
+		return ggVal{}, false
+	}
+	sel, ok := ggUnparen(c.Fun).(*ast.SelectorExpr)
+	if !ok {
+		return ggVal{}, false
+	}
+	fn, ok := g.info.Uses[sel.Sel].(*types.Func)
+	if !ok || fn.Pkg() == nil || fn.Pkg().Path() != "math" || fn.Name() != "Ceil" {
+		return ggVal{}, false
+	}
+	const pat = "math.Ceil(float64(u) / c) with u an unsigned integer below 2^32 and c an integer constant, 0 < c <= 2^20"
+	q, ok := ggUnparen(c.Args[0]).(*ast.BinaryExpr)
+	if !ok || q.Op != token.QUO {
+		g.fail(c.Pos(), "%s is outside the pattern %s", g.text(c.Pos(), c.End()), pat)
+	}
+	dtv := f.tv(q.Y)
+	if dtv.Value == nil {
+		g.fail(q.Y.Pos(), "divisor %s is not a constant (pattern: %s)", g.text(q.Y.Pos(), q.Y.End()), pat)
+	}
+	dc := constant.ToInt(dtv.Value)
+	if dc.Kind() != constant.Int {
+		g.fail(q.Y.Pos(), "divisor %s is not an integer (pattern: %s)", g.text(q.Y.Pos(), q.Y.End()), pat)
+	}
+	d := ggBig(dc)
+	if d.Sign() <= 0 || d.Cmp(ggTwo20) > 0 {
+		g.fail(q.Y.Pos(), "divisor %s out of range (pattern: %s)", d, pat)
+	}
+	if f.tv(q.X).Value != nil {
+		g.fail(q.X.Pos(), "constant dividend (pattern: %s)", pat)
+	}
+	num := f.floatExpr(q.X, env)
+	if num.den.Cmp(big.NewInt(1)) != 0 || num.numUB.Cmp(ggPow2(32)) >= 0 {
+		g.fail(q.X.Pos(), "dividend %s is not an integer below 2^32 (pattern: %s)", g.text(q.X.Pos(), q.X.End()), pat)
+	}
+	ggCeilSelfCheck(g, d.Uint64(), q.Pos())
+	dn, named := f.constRef(q.Y, d, ggN)
+	if !named {
+		dn = d.String()
+	}
+	s := "((" + num.num + " + (" + dn + " - 1)) / " + dn + ")"
+	ub := new(big.Int).Add(new(big.Int).Quo(num.numUB, d), big.NewInt(1))
+	guards := append([]string{}, num.guards...)
+	if ub.Cmp(ggTypeUB(to.w)) > 0 {
+		guards = append(guards, "("+s+" <? "+ggPow2(to.w).String()+")")
+		ub = ggTypeUB(to.w)
+	}
+	return ggVal{s: s, rep: to, ub: ub, guards: guards}, true
+}
+
+var ggCeilChecked = map[uint64]bool{}
+
+// ggCeilSelfCheck evaluates uint64(math.Ceil(float64(u)/c)) and (u + c - 1) / c on the arguments where a
+// rounding problem would show first (around every multiple of c near 0 and near 2^32, around the powers of
+// two, and the first 2^16 values) with the float64 arithmetic of the machine that runs the translator.
+func ggCeilSelfCheck(g *ggGen, c uint64, pos token.Pos) {
+	if ggCeilChecked[c] {
+		return
+	}
+	ggCeilChecked[c] = true
+	check := func(u uint64) {
+		if u >= 1<<32 {
+			return
+		}
+		if got, want := uint64(math.Ceil(float64(uint32(u))/float64(c))), (u+c-1)/c; got != want {
+			g.fail(pos, "internal: math.Ceil(float64(%d) / %d) = %d but the ceiling division gives %d", u, c, got, want)
+		}
+	}
+	for u := uint64(0); u < 1<<16; u++ {
+		check(u)
+		check(1<<32 - 1 - u)
+	}
+	top := (uint64(1)<<32 - 1) / c
+	for k := uint64(0); k < 1<<12; k++ {
+		for _, m := range []uint64{k, top - k} {
+			if m*c >= 1 {
+				check(m*c - 1)
+			}
+			check(m * c)
+			check(m*c + 1)
+		}
+	}
+	for b := uint(0); b <= 32; b++ {
+		for d := uint64(0); d <= 2*c+2; d++ {
+			check(uint64(1)<<b + d)
+			if uint64(1)<<b >= d {
+				check(uint64(1)<<b - d)
+			}
+		}
+	}
+}
+
+// ---------------------------------------------------------------------------------------------
+// scalar fields of a struct receiver
+
+type ggRecvField struct {
+	name  string // Gallina parameter
+	text  string // Go expression it stands for
+	idx   []int  // field indices from the receiver's struct type down
+	isLen bool
+	rep   ggRep
+}
+
+// recvPath: the field names / indices of a selector chain rooted at the struct receiver; ok = false if e is
+// not such a chain.
+func (f *ggFn) recvPath(e ast.Expr) (names []string, idx []int, ok bool) {
+	g := f.g
+	switch x := ggUnparen(e).(type) {
+	case *ast.Ident:
+		if v, isVar := g.info.Uses[x].(*types.Var); isVar && f.recvStruct && v == f.recv {
+			return nil, nil, true
+		}
+	case *ast.SelectorExpr:
+		sel := g.info.Selections[x]
+		if sel == nil || sel.Kind() != types.FieldVal {
+			return nil, nil, false
+		}
+		names, idx, ok = f.recvPath(x.X)
+		if !ok {
+			return nil, nil, false
+		}
+		if len(sel.Index()) != 1 {
+			g.fail(x.Sel.Pos(), "field %s is promoted through an embedded field", x.Sel.Name)
+		}
+		if len(names) > 0 { // below the receiver itself: no pointer hops (a nil pointer would panic)
+			if _, isStruct := f.tv(x.X).Type.Underlying().(*types.Struct); !isStruct {
+				g.fail(x.X.Pos(), "field selection through %s of type %s (only struct-typed fields)", g.text(x.X.Pos(), x.X.End()), f.tv(x.X).Type)
+			}
+		}
+		return append(names, x.Sel.Name), append(idx, sel.Index()[0]), true
+	}
+	return nil, nil, false
+}
+
+// recvField: r.f.g (isLen: the argument of len) as a parameter of the function being translated.
+func (f *ggFn) recvField(e ast.Expr, isLen bool) ggVal {
+	g := f.g
+	names, idx, ok := f.recvPath(e)
+	txt := g.text(e.Pos(), e.End())
+	if !ok || len(names) == 0 {
+		if isLen {
+			g.fail(e.Pos(), "len(%s): only len of a slice/map/string field of the struct receiver is in the subset", txt)
+		}
+		g.fail(e.Pos(), "selector expression %s is outside the subset (only scalar fields read from the method's own struct receiver)", txt)
+	}
+	t := f.tv(e).Type
+	var rep ggRep
+	if isLen {
+		switch u := t.Underlying().(type) {
+		case *types.Slice, *types.Map:
+		case *types.Basic:
+			if u.Info()&types.IsString == 0 {
+				g.fail(e.Pos(), "len(%s) of type %s", txt, t)
+			}
+		default:
+			g.fail(e.Pos(), "len(%s) of type %s (only slices, maps, strings)", txt, t)
+		}
+		rep = ggRep{ggZ, 0}
+		txt = "len(" + txt + ")"
+	} else {
+		rep = g.repOf(t, e.Pos())
+		if rep.k == ggArr2 {
+			g.fail(e.Pos(), "receiver field %s of array type %s (only sized integers and bool)", txt, t)
+		}
+	}
+	key := strings.Join(names, ".")
+	if isLen {
+		key = "len " + key
+	}
+	rf := f.recvFields[key]
+	if rf == nil {
+		base := ggSafeName(f.recv.Name() + "_" + strings.Join(names, "_"))
+		if isLen {
+			base = "len_" + base
+		}
+		n := base
+		for i := 1; f.used[n]; i++ {
+			n = fmt.Sprintf("%s_%d", base, i)
+		}
+		f.used[n] = true
+		rf = &ggRecvField{name: n, text: ggComment(txt), idx: idx, isLen: isLen, rep: rep}
+		f.recvFields[key] = rf
+	}
+	out := ggVal{s: rf.name, rep: rep}
+	if rep.k == ggN && rep.w > 0 {
+		out.ub = ggTypeUB(rep.w)
+	}
+	return out
+}
+
+// recvFieldList: the receiver's parameters in struct declaration order (len(r.f) after r.f...).
+func (f *ggFn) recvFieldList() []*ggRecvField {
+	var l []*ggRecvField
+	for _, rf := range f.recvFields {
+		l = append(l, rf)
+	}
+	sort.Slice(l, func(i, j int) bool {
+		a, b := l[i], l[j]
+		for k := 0; k < len(a.idx) && k < len(b.idx); k++ {
+			if a.idx[k] != b.idx[k] {
+				return a.idx[k] < b.idx[k]
+			}
+		}
+		if len(a.idx) != len(b.idx) {
+			return len(a.idx) < len(b.idx)
+		}
+		return !a.isLen && b.isLen
+	})
+	return l
 }
 
 var _ = fmt.Sprintf
